@@ -83,7 +83,7 @@ func wantChannel(w *want) (ch string, strict bool) {
 // written in HTML at all (every parser yields U+FFFD) and a bare CR is
 // normalised to LF by the input-stream preprocessing.
 func htmlNorm(v string) string {
-	v = strings.ReplaceAll(v, "\x00", "�")
+	v = strings.ReplaceAll(v, "\x00", "\uFFFD")
 	v = strings.ReplaceAll(v, "\r\n", "\n")
 	return strings.ReplaceAll(v, "\r", "\n")
 }
